@@ -2,6 +2,7 @@ import PallasVerif.Model.PlutusData
 import PallasVerif.Proofs.PlutusDataOrd
 import PallasVerif.Proofs.PlutusDataCodec
 import PallasVerif.Proofs.PlutusDataDec
+import PallasVerif.Proofs.PlutusDataDecSound
 /-!
 # C07 — PlutusData round-trips; its comparison is a total order
 
@@ -186,6 +187,24 @@ theorem bytes_any_chunking (cs : List (Head × Bytes)) (r : Bytes) (hw : chunksW
     Dec.decodeBytes ((Item.strIndef 2 cs).encode ++ r) = some (.bytes (chunksPayload cs), r) :=
   Dec.decodeBytes_refines _ _ r (by simp [Item.wf, hw]) (by simp [ofItem])
 
+/-- **the decoder is exactly "strict CBOR parser, then the tree decoder"**: it accepts `bs` with
+    value `d` and rest `r` iff the first well-formed CBOR item of `bs` is a tree that `ofItem` maps to
+    `d` and `r` is what follows that item. (Both directions; nothing lenient, nothing stricter.) -/
+theorem decoder_is_parse_then_tree (bs : Bytes) (d : PData) (r : Bytes) :
+    Dec.decodeBytes bs = some (d, r) ↔ ∃ i : Item, parseItem bs = some (i, r) ∧ ofItem i = some d :=
+  Dec.decodeBytes_iff bs d r
+
+/-- the specification-level decoder and the byte-level decoder are the same function -/
+theorem decode_eq_decodeBytes (bs : Bytes) : decode bs = (Dec.decodeBytes bs).map (·.1) :=
+  Dec.decode_eq_decodeBytes bs
+
+/-- what the decoder consumes is exactly one well-formed CBOR data item (so a raw span kept
+    around a decoded value is that item's bytes, break bytes included) -/
+theorem decoded_span_is_one_item (bs : Bytes) (d : PData) (r : Bytes) (h : Dec.decodeBytes bs = some (d, r)) :
+    ∃ span, bs = span ++ r ∧ isSingleItem span = true := by
+  obtain ⟨i, w, _, e⟩ := Dec.decodeBytes_sound bs d r h
+  exact ⟨i.encode, e, isSingleItem_encode i w⟩
+
 /-- **the decoder never leaves the quantifier**: whatever it returns, on any input (malformed,
     lenient, truncated-then-completed …), has valid constructor tags at every depth — so comparing
     decoded values cannot panic — and is in `any_constructor` normal form -/
@@ -231,9 +250,12 @@ example : Dec.decodeBytes (encode ex1 ++ [0xaa]) = some (ex1, [0xaa]) :=
 set_option maxRecDepth 8192 in
 example : Dec.decodeBytes [0xd9, 0x00, 0x79, 0x9f, 0x5f, 0x41, 0x07, 0x40, 0xff, 0x1b, 0, 0, 0, 0, 0, 0, 0, 5, 0xff] =
     some (.constr 121 none false [.bytes [7], .int (.int 5)], []) := by rfl
--- the tag-102 leniency of the Rust (`d.array()?` ignores the length): accepted by the byte-level
--- decoder, rejected by the strict tree decoder
-example : Dec.decodeBytes [0xd8, 0x66, 0x83, 0x00, 0x80, 0x05] = some (.constr 102 (some 0) true [], [0x05]) := by rfl
+-- tag 102: a definite array of exactly two items or an indefinite one closed by its break; other
+-- lengths are rejected by both decoders
+example : Dec.decodeBytes [0xd8, 0x66, 0x9f, 0x00, 0x80, 0xff, 0x05] = some (.constr 102 (some 0) true [], [0x05]) := by rfl
+example : (decode [0xd8, 0x66, 0x9f, 0x00, 0x80, 0xff, 0x05]).isSome = true := by decide
+example : Dec.decodeBytes [0xd8, 0x66, 0x83, 0x00, 0x80, 0x05] = none := by rfl
 example : decode [0xd8, 0x66, 0x83, 0x00, 0x80, 0x05] = none := by decide
+example : Dec.decodeBytes [0xd8, 0x66, 0x9f, 0x00, 0x80, 0x05, 0xff] = none := by rfl
 
 end PallasVerif.Props.C07
